@@ -199,6 +199,13 @@ def tlc_must_pass(res, what):
         die_tool("TLC did not finish cleanly: %s (%s)" % (what, res.violation))
 
 
+_CURRENT_PROP = [None]
+
+
+def _prop_of(spec_dir, module):
+    return _CURRENT_PROP[0]
+
+
 def trace_validate(spec_dir, module, trace_path, cfg=None, env=None, timeout=900, libs=(), xmx="4g",
                    workers=1):
     """Validate an ndjson trace with a *Trace module.  Returns (accepted, reject_info, TlcResult).
@@ -207,8 +214,8 @@ def trace_validate(spec_dir, module, trace_path, cfg=None, env=None, timeout=900
     it could not match."""
     e = {"TRACE": trace_path}
     for k in load_known():
-        # named deviation actions of the trace specs are enabled only for findings listed as open
-        if k.get("status") == "open" and k.get("env"):
+        # named deviation actions of the trace specs are enabled only for findings listed as open for this property
+        if k.get("status") == "open" and k.get("env") and k.get("property") == _prop_of(spec_dir, module):
             e[k["env"]] = "1"
     if env:
         e.update(env)
@@ -372,6 +379,7 @@ def match_known(prop, record, known=None):
 class Ctx:
     def __init__(self, prop, tier, seed, level="model_checking"):
         self.prop = prop
+        _CURRENT_PROP[0] = prop
         self.tier = tier
         self.seed = seed
         self.level = level
@@ -432,7 +440,8 @@ class Ctx:
         for tag, val in res.prints:
             if tag != "KNOWN":
                 continue
-            ent = [k for k in self.known if k.get("env") == val["id"] and k.get("status") == "open"]
+            ent = [k for k in self.known if k.get("env") == val["id"] and k.get("status") == "open"
+                   and k.get("property") == self.prop]
             if not ent:
                 raise ToolError("deviation action fired for a finding that is not listed as open: %s" % val["id"])
             k = ent[0]
